@@ -86,6 +86,8 @@ enum CacheLayer<K: CacheKey> {
 
 impl<K: CacheKey + 'static> CacheLayer<K> {
     async fn get(&self, key: &K) -> CacheResult<Option<Bytes>> {
+        #[cfg(feature = "verif-hooks")]
+        let _after = crate::verif_hooks::ExitPoint("ml.layer.after_get");
         match self {
             CacheLayer::Memory(cache) => cache.get(key).await,
             CacheLayer::Disk(cache) => cache.get(key).await,
@@ -93,6 +95,8 @@ impl<K: CacheKey + 'static> CacheLayer<K> {
     }
 
     async fn put(&self, key: K, value: Bytes) -> CacheResult<()> {
+        #[cfg(feature = "verif-hooks")]
+        let _after = crate::verif_hooks::ExitPoint("ml.layer.after_put");
         match self {
             CacheLayer::Memory(cache) => cache.put(key, value).await,
             CacheLayer::Disk(cache) => cache.put(key, value).await,
@@ -100,6 +104,8 @@ impl<K: CacheKey + 'static> CacheLayer<K> {
     }
 
     async fn put_with_ttl(&self, key: K, value: Bytes, ttl: Duration) -> CacheResult<()> {
+        #[cfg(feature = "verif-hooks")]
+        let _after = crate::verif_hooks::ExitPoint("ml.layer.after_put_with_ttl");
         match self {
             CacheLayer::Memory(cache) => cache.put_with_ttl(key, value, ttl).await,
             CacheLayer::Disk(cache) => cache.put_with_ttl(key, value, ttl).await,
@@ -107,6 +113,8 @@ impl<K: CacheKey + 'static> CacheLayer<K> {
     }
 
     async fn contains(&self, key: &K) -> CacheResult<bool> {
+        #[cfg(feature = "verif-hooks")]
+        let _after = crate::verif_hooks::ExitPoint("ml.layer.after_contains");
         match self {
             CacheLayer::Memory(cache) => cache.contains(key).await,
             CacheLayer::Disk(cache) => cache.contains(key).await,
@@ -114,6 +122,8 @@ impl<K: CacheKey + 'static> CacheLayer<K> {
     }
 
     async fn remove(&self, key: &K) -> CacheResult<bool> {
+        #[cfg(feature = "verif-hooks")]
+        let _after = crate::verif_hooks::ExitPoint("ml.layer.after_remove");
         match self {
             CacheLayer::Memory(cache) => cache.remove(key).await,
             CacheLayer::Disk(cache) => cache.remove(key).await,
@@ -121,6 +131,8 @@ impl<K: CacheKey + 'static> CacheLayer<K> {
     }
 
     async fn clear(&self) -> CacheResult<()> {
+        #[cfg(feature = "verif-hooks")]
+        let _after = crate::verif_hooks::ExitPoint("ml.layer.after_clear");
         match self {
             CacheLayer::Memory(cache) => cache.clear().await,
             CacheLayer::Disk(cache) => cache.clear().await,
